@@ -78,6 +78,11 @@ pub trait Source {
             // concrete: lets a data-dependent branch in the code under test be taken concretely
             Dom::Neg1 => -1.0,
             Dom::Zero => 0.0,
+            Dom::Sq => match self.pick(3) {
+                0 => 0.0,
+                1 => 1.0,
+                _ => 4.0,
+            },
             Dom::Two => 2.0,
         }
     }
@@ -103,6 +108,8 @@ pub enum Dom {
     /// the constants 0 and 2 (no solver variables): fully concrete histories
     Zero,
     Two,
+    /// {0, 1, 4}: bases of a square root, zero included
+    Sq,
 }
 
 // ---------------------------------------------------------------------------------
